@@ -16,7 +16,7 @@ package config
 //@   ensures @C08 vlen(sH(INIT)) == 0 && vlen(sO(INIT)) == 0 && vlen(sOut(INIT)) == 0
 //@   ensures @C08 err == nil ==> seq(res.Extensions) == tail(old(seq(content.Extensions)), sO(run(old(seq(profile.Extensions)), old(seq(content.Extensions)), 0, INIT)), 0, sOut(run(old(seq(profile.Extensions)), old(seq(content.Extensions)), 0, INIT)))
 //@   ensures @C08 err != nil ==> res == nil
-//@   ensures @C03 err == nil ==> res.Subject == content.Subject && res.SerialNumber == content.SerialNumber && res.IssuerUniqueId == content.IssuerUniqueId && res.SubjectUniqueId == content.SubjectUniqueId && res.Issuer == content.Issuer && res.Alias == content.Alias && res.Profile == content.Profile && res.KeyAlgorithm == content.KeyAlgorithm && res.SignatureAlgorithm == content.SignatureAlgorithm && res.Manipulations == content.Manipulations
+//@   ensures @C03,C06 err == nil ==> res.Subject == content.Subject && res.SerialNumber == content.SerialNumber && res.IssuerUniqueId == content.IssuerUniqueId && res.SubjectUniqueId == content.SubjectUniqueId && res.Issuer == content.Issuer && res.Alias == content.Alias && res.Profile == content.Profile && res.KeyAlgorithm == content.KeyAlgorithm && res.SignatureAlgorithm == content.SignatureAlgorithm && res.Manipulations == content.Manipulations
 // (C13: the whole validity is inherited, including whether it is static - the hash blanks run-relative times only)
 //@   ensures @C04,C13 err == nil ==> res.Validity == (if !content.Validity.IsSet && profile.Validity.IsSet then profile.Validity else content.Validity)
 //@   ensures err == nil ==> fresh(res)
@@ -108,7 +108,7 @@ package config
 // the bounded stand-in) become, in REVERSED order, one single-valued RDN each: type from the short-name table or the
 // dotted OID, value the text after '=' unchanged (or the decoded #hex form).
 //@ func ParseRDNSequence returns (res, err)
-//@   props C03 C20
+//@   props C03 C20 C01
 //@   uses names.smt2 strings.smt2
 //@   bounded TestVerifBoundedRDN
 //@   ghostret PIECES (View String) = entry(2, seq(assertions))
@@ -117,6 +117,11 @@ package config
 //@   ensures @C03 err == nil ==> (forall k in [0, N) :: rdnOk(PIECES[k]) && len(res[N - 1 - k]) == 1 && oidv(res[N - 1 - k][0].Type) == rdnType(PIECES[k]))
 //@   ensures @C03 err == nil ==> (forall k in [0, N) :: !isHexAttr(rdnVal(PIECES[k])) ==> typeis(res[N - 1 - k][0].Value, "string") && strOf(res[N - 1 - k][0].Value) == rdnVal(PIECES[k]))
 //@   ensures @C03,C09 err == nil ==> (forall k in [0, len(res)) :: len(res[k]) >= 1)
+// (C01: the issuer name of a child is the subject read back from the issuer's stored certificate and encoded again; that
+// this reproduces the bytes is assumed of encoding/asn1 for attribute values that are strings or byte strings - the
+// only kinds a subject may therefore be built from; a value of another kind, e.g. a pre-encoded RawValue, would come
+// back as a different string type)
+//@   ensures @C01,C03 err == nil ==> (forall k in [0, N) :: typeis(res[N - 1 - k][0].Value, "string") || typeis(res[N - 1 - k][0].Value, "[]byte"))
 //@   ensures err != nil ==> res == nil
 //@   loop 1 abstract range over the runes of a string (outside the subset)
 //@     invariant 0 <= assertBegin && assertBegin <= len(s)
@@ -125,6 +130,7 @@ package config
 //@     invariant @C03 forall k in [0, idx) :: rdnOk(assertions[k]) && len(out[len(out) - 1 - k]) == 1 && oidv(out[len(out) - 1 - k][0].Type) == rdnType(assertions[k])
 //@     invariant @C03 forall k in [0, idx) :: !isHexAttr(rdnVal(assertions[k])) ==> typeis(out[len(out) - 1 - k][0].Value, "string") && strOf(out[len(out) - 1 - k][0].Value) == rdnVal(assertions[k])
 //@     invariant @C03,C09 forall k in [0, idx) :: len(out[len(out) - 1 - k]) >= 1 && allocated(out[len(out) - 1 - k])
+//@     invariant @C01,C03 forall k in [0, idx) :: typeis(out[len(out) - 1 - k][0].Value, "string") || typeis(out[len(out) - 1 - k][0].Value, "[]byte")
 
 // ParseConfig reads the version key and hands the text to that version's parser: a certificate or a profile on
 // success (assumed: yaml and the version dispatch are outside the subset).
